@@ -30,9 +30,9 @@ def run(ctx):
         "on the real channel 'eventually' is checked at quiescence (writers finished, receiver drained); the fairness-based liveness is model-checked on the specification only",
         "keys under a sequence prefix that look like 'prefix-...' are only created by sequence puts in the enumerated domain",
     ]
-    r = ctx.tlc("OxiaDbMC", "db-c16-quick.cfg", label="laws")
+    r = ctx.tlc("OxiaDbMC", "db-c16-quick.cfg", label="laws", heap="4g")
     ctx.log("SeqRule/SeqFresh (4 requests x 1 op): %d distinct states, %d transitions" % (r.distinct, r.generated))
-    r = ctx.tlc("OxiaDbMC", "db-c16-laws2.cfg", label="laws2")
+    r = ctx.tlc("OxiaDbMC", "db-c16-laws2.cfg", label="laws2", heap="4g")
     ctx.log("SeqRule/SeqFresh (2 requests x <=2 ops): %d distinct states, %d transitions" % (r.distinct, r.generated))
 
     binp = ctx.go_build("dbcheck")
@@ -52,9 +52,9 @@ def run(ctx):
         _db.drive_and_validate(ctx, binp, "leader", "seq", 40, 30, "db-trace-c16.cfg", "seq-leader", 2)
 
     # override channel
-    r = ctx.tlc("OverrideChannel", "chan-live.cfg" if quick else "chan-live-thorough.cfg", label="chan")
+    r = ctx.tlc("OverrideChannel", "chan-live.cfg" if quick else "chan-live-thorough.cfg", label="chan", heap="1g")
     ctx.log("OverrideChannel liveness + invariants: %d distinct states" % r.distinct)
-    r = ctx.tlc("OverrideChannel", "chan-mutant-drop.cfg", label="chan-mutant", allow_violation=True)
+    r = ctx.tlc("OverrideChannel", "chan-mutant-drop.cfg", label="chan-mutant", allow_violation=True, heap="1g")
     if not r.violated:
         raise vf.Inconclusive("the drop-when-full mutant of OverrideChannel.tla is not caught: the properties are vacuous")
     cbin = ctx.go_build("chancheck")
@@ -62,7 +62,7 @@ def run(ctx):
     runs, writes = (12, 40) if quick else (60, 60)
     p = ctx.run([cbin, "stress", "-seed", str(ctx.seed), "-runs", str(runs), "-writes", str(writes), "-out", tp], ok_codes=(0, 3))
     r = ctx.tlc("ChanTrace", "chan-trace.cfg", files=[(tp, "trace.ndjson")], workers=1, deque=True, label="chantrace",
-                seed=False, allow_violation=True)
+                seed=False, allow_violation=True, heap="2g")
     if p.returncode == 3 or not r.ok:
         bad = "?"
         for l in r.out.splitlines():
@@ -79,9 +79,10 @@ def run(ctx):
 
 
 def replay(ctx, path):
+    path = os.path.abspath(path)
     if path.endswith(".ndjson"):
         r = ctx.tlc("ChanTrace", "chan-trace.cfg", files=[(path, "trace.ndjson")], workers=1, deque=True, label="chantrace",
-                    seed=False, allow_violation=True)
+                    seed=False, allow_violation=True, heap="2g")
         if not r.ok:
             ctx.violation("recorded run of the override channel is rejected by ChanTrace", path)
         return
